@@ -291,6 +291,9 @@ func runCheck(repo, prop, tier string) int {
 		}
 		nr.Instances++
 		nr.Seconds += v.Seconds
+		if os.Getenv("GVC_SLOW") != "" && v.Seconds > 4 {
+			fmt.Fprintf(os.Stderr, "SLOW %.1fs %s [%s] %v\n", v.Seconds, j.o.Name, v.Backend, v.Tried)
+		}
 		if v.Status == "discharged" {
 			nr.Backends[v.Backend]++
 			byBackend[v.Backend]++
